@@ -867,6 +867,41 @@ pub fn run_history(ctx: &mut Ctx, src: &mut Source, seed: u64) -> Option<History
             break;
         }
 
+        // ---- C08 lost update: this COMMIT succeeds although a row this transaction wrote was
+        // changed and committed by another session after this transaction began
+        if ctx.profile == "iso" && matches!(op, Op::Commit) && actual.is_ok() {
+            if let Some(t) = model.sessions[s].txn.as_ref() {
+                if t.base_version != model.version {
+                    for (tn, cur) in &t.cur.tables {
+                        let (begin, now) = match (t.begin.tables.get(tn), model.committed.tables.get(tn)) {
+                            (Some(b), Some(n)) => (b, n),
+                            _ => continue,
+                        };
+                        let key = match cur.def.cols.iter().position(|c| c.pk) {
+                            Some(k) => k,
+                            None => continue,
+                        };
+                        for br in &begin.rows {
+                            let mine = cur.rows.iter().find(|r| r[key] == br[key]);
+                            let theirs = now.rows.iter().find(|r| r[key] == br[key]);
+                            let i_changed = mine.map_or(true, |r| r != br);
+                            let they_changed = theirs.map_or(true, |r| r != br);
+                            if i_changed && they_changed {
+                                let sig = sig_base.clone();
+                                ctx.violate(
+                                    "C08",
+                                    "lost-update",
+                                    &sig,
+                                    format!("{}: row with key {} of {} was modified by this transaction and, after its BEGIN, by another session that already committed; both commits succeeded", desc, br[key].short(), tn),
+                                    None,
+                                );
+                            }
+                        }
+                    }
+                }
+            }
+        }
+
         // ---- outcome vs model
         let mut effect_applied = false;
         let mut diverged = false;
@@ -897,7 +932,28 @@ pub fn run_history(ctx: &mut Ctx, src: &mut Source, seed: u64) -> Option<History
                 if !diverged {
                     if let Some((mkind, m)) = compare_ok(&exp2, act) {
                         let is_read = matches!(op, Op::Select { .. } | Op::Count(_));
-                        if is_read {
+                        if is_read && ctx.profile == "iso" {
+                            let (verdict, detail) = match (op, &exp2, act) {
+                                (Op::Select { table, .. }, Res::Rows(er), ARes::Rows { rows, .. }) => {
+                                    let o: Vec<Row> = rows.iter().map(norm_row).collect();
+                                    classify_isolation(&model, s, table, er, &o)
+                                }
+                                _ => ("read-mismatch", m.clone()),
+                            };
+                            let mut sig = sig_base.clone();
+                            sig.push(("reader_in_txn", in_txn_before.to_string()));
+                            let others_open = model.sessions.iter().enumerate().any(|(i, x)| i != s && x.txn.is_some());
+                            if verdict != "read-mismatch" {
+                                ctx.violate("C08", verdict, &sig, format!("{}: {}", desc, detail), None);
+                            } else if matches!(op, Op::Count(_)) && others_open {
+                                ctx.violate("C08", "dirty-count", &sig, format!("{}: {}", desc, detail), None);
+                            } else {
+                                // not an isolation anomaly: owned by the property of single-session semantics
+                                let prop = if matches!(op, Op::Count(_)) { "C05" } else { "C10" };
+                                ctx.violate(prop, "read-mismatch", &sig, format!("{}: {}", desc, detail), None);
+                            }
+                            diverged = true;
+                        } else if is_read {
                             // is the table content right? then the filtered read is wrong
                             let only = tname.clone().map(|t| vec![t]);
                             let plan = plan_q(&[model.view(s)], only.as_deref(), 0);
@@ -940,6 +996,15 @@ pub fn run_history(ctx: &mut Ctx, src: &mut Source, seed: u64) -> Option<History
                             let prop = prop_for_step(op);
                             let mut sig = sig_base.clone();
                             sig.push(("what", mkind.to_string()));
+                            if ctx.profile == "iso" && mkind == "affected-count" && model.sessions.iter().enumerate().any(|(i, x)| i != s && x.txn.is_some()) {
+                                // a write that matches rows only another session's open transaction can see
+                                sig.push(("via", "write".to_string()));
+                                ctx.violate("C08", "dirty-read", &sig, format!("{}: the statement acted on another session's uncommitted changes: {}", desc, m), None);
+                                diverged = true;
+                                records.push(StepRecord { step: step.clone(), actual, q: None });
+                                ctx.stop = true;
+                                break;
+                            }
                             ctx.violate(prop, "wrong-result", &sig, format!("{}: {}", desc, m), None);
                             // a RETURNING-only discrepancy does not mean the states diverged
                             if !mkind.starts_with("returning-") {
@@ -1099,7 +1164,19 @@ pub fn run_history(ctx: &mut Ctx, src: &mut Source, seed: u64) -> Option<History
                 if let Some(site) = panic_site_in(&d.detail) {
                     sig.push(("site", site));
                 }
-                let (prop, verdict): (&str, &str) = if failed_stmt {
+                let iso_class: Option<(&'static str, String)> = if ctx.profile == "iso" && (d.what == "scan" || d.what == "lookup" || d.what == "count") {
+                    match (exp_o.get(&d.table), obs.get(&d.table)) {
+                        (Some(TableObs::Data { scan: es, .. }), Some(TableObs::Data { scan: os, .. })) if es != os => Some(classify_isolation(&model, s, &d.table, es, os)),
+                        _ => Some(("read-mismatch", d.detail.clone())),
+                    }
+                } else {
+                    None
+                };
+                let iso_class = iso_class.filter(|(v, _)| *v != "read-mismatch");
+                let (prop, verdict): (&str, &str) = if let Some((v, _)) = &iso_class {
+                    sig.push(("reader_in_txn", model.in_txn(s).to_string()));
+                    ("C08", *v)
+                } else if failed_stmt {
                     ("C06", if fault_fired { "effect-after-io-error" } else { "effect-after-error" })
                 } else {
                     match op {
@@ -1129,7 +1206,8 @@ pub fn run_history(ctx: &mut Ctx, src: &mut Source, seed: u64) -> Option<History
                 if let Some(cls) = pred.expected.as_ref().err() {
                     sig.push(("class", cls.as_str().to_string()));
                 }
-                ctx.violate(prop, verdict, &sig, format!("after {} -> {}: {}", desc, actual.brief(), d.detail), None);
+                let d_detail = iso_class.as_ref().map(|(_, x)| x.clone()).unwrap_or_else(|| d.detail.clone());
+                ctx.violate(prop, verdict, &sig, format!("after {} -> {}: {}", desc, actual.brief(), d_detail), None);
                 if prop == "C04" && matches!(op, Op::CloseReopen | Op::DropReopen) && !ddl_since_reopen.is_empty() {
                     // schema changes must survive reopening (C21)
                     let mut sig2 = sig.clone();
@@ -1149,6 +1227,41 @@ pub fn run_history(ctx: &mut Ctx, src: &mut Source, seed: u64) -> Option<History
     }
     ctx.out.sim_time_us = simdisk::sim_time_us();
     Some(History { live, model, records })
+}
+
+/// C08: classify a read that deviates from snapshot isolation. `observed` are the rows the
+/// reader got from `table`, `expected` what its snapshot (+ own writes) holds.
+fn classify_isolation(model: &Model, reader: usize, table: &str, expected: &[Row], observed: &[Row]) -> (&'static str, String) {
+    let (missing, unexpected) = bag_diff(expected, observed);
+    // rows visible only in another session's open transaction
+    for (si, sess) in model.sessions.iter().enumerate() {
+        if si == reader {
+            continue;
+        }
+        if let Some(t) = &sess.txn {
+            if let (Some(cur), base) = (t.cur.tables.get(table), model.committed.tables.get(table)) {
+                let cur_rows: Vec<Row> = cur.rows.iter().map(norm_row).collect();
+                let base_rows: Vec<Row> = base.map(|b| b.rows.iter().map(norm_row).collect()).unwrap_or_default();
+                if unexpected.iter().any(|u| cur_rows.contains(u) && !base_rows.contains(u)) {
+                    return ("dirty-read", format!("session {} sees rows written by session {}'s uncommitted transaction: {}", reader, si, fmt_bag(&unexpected)));
+                }
+                if missing.iter().any(|m| base_rows.contains(m) && !cur_rows.contains(m)) {
+                    return ("dirty-read", format!("session {} no longer sees committed rows that session {}'s uncommitted transaction deleted or changed: {}", reader, si, fmt_bag(&missing)));
+                }
+            }
+        }
+    }
+    // the reader is in a transaction and sees something committed after its BEGIN
+    if let Some(t) = &model.sessions[reader].txn {
+        if let Some(now) = model.committed.tables.get(table) {
+            let now_rows: Vec<Row> = now.rows.iter().map(norm_row).collect();
+            let begin_rows: Vec<Row> = t.begin.tables.get(table).map(|b| b.rows.iter().map(norm_row).collect()).unwrap_or_default();
+            if unexpected.iter().any(|u| now_rows.contains(u) && !begin_rows.contains(u)) || missing.iter().any(|m| begin_rows.contains(m) && !now_rows.contains(m)) {
+                return ("non-repeatable-read", format!("session {}'s transaction sees changes committed by others after its BEGIN: missing {} unexpected {}", reader, fmt_bag(&missing), fmt_bag(&unexpected)));
+            }
+        }
+    }
+    ("read-mismatch", format!("missing {} unexpected {}", fmt_bag(&missing), fmt_bag(&unexpected)))
 }
 
 fn err_class(e: &str) -> String {
